@@ -36,6 +36,12 @@ func drawLen(t *rapid.T, minN int, boundaries []int) int {
 			n = minN
 		}
 		return n
+	case k < 24: // a multiple of a power of two (chunk, word, page and buffer sizes of an implementation) give or take a few bits
+		n := rapid.IntRange(1, 8).Draw(t, "chunks")<<uint(rapid.IntRange(6, 17).Draw(t, "chunk_log2")) + rapid.IntRange(-3, 3).Draw(t, "dchunk")
+		if n > 1100000 {
+			n = 1<<20 + rapid.IntRange(-3, 3).Draw(t, "dchunk2")
+		}
+		return max(n, minN)
 	case k < 85:
 		return rapid.IntRange(minN, max(minN, maxSmall)).Draw(t, "n")
 	case k < 99:
@@ -171,7 +177,7 @@ func genC01(t *rapid.T) statCase {
 	}
 	switch test {
 	case "block", "blockBytes":
-		switch rapid.IntRange(0, 4).Draw(t, "mclass") {
+		switch rapid.IntRange(0, 5).Draw(t, "mclass") {
 		case 0:
 			c.M = rapid.IntRange(2, 20).Draw(t, "m")
 		case 1:
@@ -180,6 +186,8 @@ func genC01(t *rapid.T) statCase {
 			c.M = rapid.IntRange(max(2, n/2-2), n/2+1).Draw(t, "m")
 		case 3:
 			c.M = rapid.SampledFrom([]int{10, 100, 1000, 10000, 128, 8}).Draw(t, "m")
+		case 4: // around machine word sizes
+			c.M = rapid.SampledFrom([]int{8, 16, 32, 64, 128}).Draw(t, "word") + rapid.IntRange(-7, 8).Draw(t, "dword")
 		default:
 			c.M = rapid.IntRange(2, n).Draw(t, "m")
 		}
